@@ -57,7 +57,10 @@ def go_build(cmd, out=None, tags="verif", timeout=900):
 
 def _tlc(args, cwd, env=None, timeout=1800):
     e = dict(os.environ)
-    e["JAVA_TOOL_OPTIONS"] = (e.get("JAVA_TOOL_OPTIONS", "") + " -Xss512m").strip()
+    # TLC makes an (empty) tlc-<n> directory in java.io.tmpdir at every start: keep it inside the check's scratch directory
+    jtmp = os.path.join(cwd, ".jtmp")
+    os.makedirs(jtmp, exist_ok=True)
+    e["JAVA_TOOL_OPTIONS"] = (e.get("JAVA_TOOL_OPTIONS", "") + " -Xss512m -Djava.io.tmpdir=" + jtmp).strip()
     if env:
         e.update(env)
     # run under a watchdog: time limit and a cap on the size of TLC's state directory (a mis-sized model must not fill the disk)
